@@ -19,11 +19,25 @@ func ctxWithDefaultTimeout() (ctx context.Context, cancel context.CancelFunc) {
 }
 
 // newCtxWithTimeoutCons returns a context constructor that creates a simple
-// context with the given timeout.
+// context with the given timeout.  If timeout is zero, the contexts have no
+// timeout.
 func newCtxWithTimeoutCons(timeout time.Duration) (c contextConstructor) {
 	parent := context.Background()
 
 	return func() (ctx context.Context, cancel context.CancelFunc) {
-		return context.WithTimeout(parent, timeout)
+		return ctxWithOptionalTimeout(parent, timeout)
 	}
+}
+
+// ctxWithOptionalTimeout returns a child context of parent with the given
+// timeout or, if timeout is zero, without a timeout.
+func ctxWithOptionalTimeout(
+	parent context.Context,
+	timeout time.Duration,
+) (ctx context.Context, cancel context.CancelFunc) {
+	if timeout == 0 {
+		return context.WithCancel(parent)
+	}
+
+	return context.WithTimeout(parent, timeout)
 }
